@@ -389,7 +389,6 @@ Proof.
       2:{ intro F. destruct (A6 F) as (B1 & B2 & _). split; assumption. }
       2:{ intro F. destruct (A7 F) as (B1 & B2 & _). split; assumption. }
       destruct H as [(S & -> & _)|(S & L & U & _)]; destruct H' as [(S0 & -> & _)|(S0 & L' & U' & _)]; try lra.
-      exfalso. apply S0. lra.
     + exfalso. lra.
     + apply (IH y2' (phi y2') z z' y o y' o'); try assumption; try reflexivity; lra.
 Qed.
@@ -416,6 +415,7 @@ Proof.
         destruct (bisect phi z' dzmax BISECT_FUEL 1 y1' y2 (phi y1') z2) as [[[[a' b'] za'] zb']|] eqn:Bi'; [|discriminate].
         injection H as <- _. injection H' as <- _.
         apply (bisect_mono phi dzmax BISECT_FUEL 1 y1' y2 (phi y1') z2 z z' _ _) with (7 := Bi) (8 := Bi'); try assumption; try lra; reflexivity.
+    + exfalso. lra.
     + (* z further down, z' in this cell *)
       apply (finish_down_range phi dzmax z' y1' y2 (phi y1') z2 true) in H'; try assumption; try lra; try discriminate;
         try (intros; split; [reflexivity|assumption]).
@@ -426,9 +426,6 @@ Proof.
       2:{ intro F. destruct (A6 F) as (B1 & B2 & _). split; assumption. }
       2:{ intro F. destruct (A7 F) as (B1 & B2 & _). split; assumption. }
       destruct H as [(S & -> & _)|(S & L & U & _)]; destruct H' as [(S0 & -> & _)|(S0 & L' & U' & _)]; try lra.
-      exfalso. apply S. lra.
-    + exfalso. lra.
-    + exfalso. lra.
     + apply (IH y1' (phi y1') z z' y o y' o'); try assumption; try reflexivity; lra.
 Qed.
 
@@ -456,6 +453,5 @@ Proof.
     assert (C1 : ANAM_YMIN - 1 <= 0) by (apply qleb_true; vm_compute; reflexivity).
     assert (C2 : 0 <= ANAM_YMAX + 1) by (apply qleb_true; vm_compute; reflexivity).
     destruct H as [(S & -> & _)|(S & L & U0 & _)]; destruct H' as [(S0 & -> & _)|(S0 & L' & U0' & _)]; try lra.
-    apply qleb_true; vm_compute; reflexivity.
   - apply (down_mono phi (dzmax_of phi) Hd 101 0 (phi 0) z z' y o y' o'); try assumption; try reflexivity; lra.
 Qed.
